@@ -23,6 +23,7 @@ class L13(Lowerer):
     function is the operator() of a lambda"""
     inst = None
     captures = {}
+    param_names = None     # names for parameters the source leaves unnamed (by position), so that the contract can speak about them
 
     # -- if constexpr: clang has already decided the branch (ConstantExpr value=...); the discarded branch is a NullStmt
     def ifstmt(self, n, ind):
@@ -110,6 +111,16 @@ class L13(Lowerer):
 
     # -- constructors: member initialisers are part of the verified text
     def lower(self, extra_params=()):
+        if self.param_names:
+            inner, i = [], 0
+            for c in self.decl['inner']:
+                if c.get('kind') == 'ParmVarDecl':
+                    if not c.get('name') and i < len(self.param_names):
+                        c = dict(c, name=self.param_names[i])
+                        self.fire('param:named-by-position')
+                    i += 1
+                inner.append(c)
+            self.decl = dict(self.decl, inner=inner)
         text = super().lower(extra_params)
         inits = [c for c in self.decl.get('inner', []) if c.get('kind') == 'CXXCtorInitializer']
         if not inits:
@@ -136,25 +147,91 @@ class L13(Lowerer):
         return text[:i] + '\n'.join(lines) + '\n' + text[i:]
 
 
-def lambda_to_function(lw, n, target):
-    """std::function<void(TaskPrivate&, void*)> constructed from the wrapper lambda of QXmppTask<T>::then():
-    the closure object holds the init-capture `f` (a copy of the user's continuation); its body is lowered separately"""
-    lam = lw.skip([a for a in n['inner'] if a.get('kind') != 'CXXDefaultArgExpr'][0])
+def closure_fields(lw, lam):
+    """captures of the then() wrapper lambda as fields of the closure struct: [(name, C type, mode)], mode =
+    'value' (held by value: a TaskPrivate captured this way is a shared_ptr copy, i.e. an OWNER of its record),
+    'ref' (captured by reference) or 'ptr' (a raw pointer value): non-owning.
+    clang's JSON leaves the closure's fields unnamed; the names are those of the captured variables the body refers to
+    (matched by type; ambiguity is a tool limit), a capture the body never uses is called _cap<i>."""
     rec = lam['inner'][0]
     fields = [c for c in rec.get('inner', []) if c.get('kind') == 'FieldDecl']
-    caps = lam['inner'][1:-1]
-    if len(fields) != 1 or len(caps) != 1:
-        raise Unsupported('then() wrapper lambda no longer captures exactly one object (the continuation)')
-    cap = lw.skip(caps[0])
-    while cap.get('kind') == 'CXXConstructExpr' and len(cap.get('inner', [])) == 1:
-        cap = lw.skip(cap['inner'][0])
-    if lw.ctype(fields[0]['type']['qualType']) != 'ucont':
-        raise Unsupported('then() wrapper lambda captures something that is not the continuation')
-    src = lw.expr(cap)       # std::forward<Continuation>(continuation) -> the parameter
+    inits = lam['inner'][1:-1]
+    if len(fields) != len(inits):
+        raise Unsupported('then() wrapper lambda: %d closure fields but %d capture initialisers (a `this` or default capture?)' % (len(fields), len(inits)))
+    ops = [c for c in rec.get('inner', []) if c.get('kind') == 'CXXMethodDecl' and c.get('name') == 'operator()']
+    if len(ops) != 1:
+        raise Unsupported('then() wrapper lambda without a single operator()')
+    declared, used = set(), []
+
+    def walk(n):
+        if isinstance(n, dict):
+            if n.get('kind') in ('VarDecl', 'ParmVarDecl') and 'id' in n:
+                declared.add(n['id'])
+            rd = n.get('referencedDecl')
+            if n.get('kind') == 'DeclRefExpr' and rd and rd.get('kind') == 'VarDecl':
+                used.append((rd['id'], rd.get('name'), strip_type(rd.get('type', {}).get('qualType', ''))))
+            for c in n.get('inner', []):
+                walk(c)
+    walk(ops[0])
+    names = {}
+    for vid, name, t in used:
+        if vid not in declared:
+            names.setdefault(vid, (name, t))
+    out, taken = [], set()
+    for i, fd in enumerate(fields):
+        q = fd['type']['qualType']
+        mode = 'ref' if q.strip().endswith('&') else ('ptr' if q.strip().endswith('*') else 'value')
+        ct = lw.ntype(fd)
+        cands = [(vid, nm) for vid, (nm, t) in names.items() if vid not in taken and t == strip_type(q)]
+        if len(cands) > 1:
+            raise Unsupported('then() wrapper lambda: two captures of type %s cannot be told apart' % q)
+        if cands:
+            taken.add(cands[0][0])
+            nm = cands[0][1]
+        else:
+            nm = '_cap%d' % i
+        if mode == 'value' and ct.endswith('*'):
+            mode = 'ptr'
+        out.append((nm, ct, mode))
+    return out
+
+
+def closure_typedef(fields):
+    """C struct of the closure + the ownership vocabulary generated from it"""
+    lines = []
+    for nm, ct, mode in fields:
+        lines.append('  %s %s%s;' % (ct, '*' if mode == 'ref' else '', nm))
+    owners = ['((c).%s.d == (rec))' % nm for nm, ct, mode in fields if ct == 'TaskPrivate' and mode == 'value']
+    return ('typedef struct closure {\n%s\n} closure;\n' % '\n'.join(lines),
+            '/* the closure holds a strong handle (a by-value copy of a TaskPrivate = a std::shared_ptr copy) on record rec */\n'
+            '#define CLOSURE_OWNS(c, rec) (%s)\n' % (' || '.join(owners) if owners else 'false'))
+
+
+def capture_map(fields):
+    return {nm: ('(*self->%s)' % nm if mode == 'ref' else 'self->%s' % nm) for nm, ct, mode in fields}
+
+
+def lambda_to_function(lw, n, target):
+    """std::function<void(TaskPrivate&, void*)> constructed from the wrapper lambda of QXmppTask<T>::then():
+    every capture initialises the field of the closure object with the same name; the body is lowered separately"""
+    lam = lw.skip([a for a in n['inner'] if a.get('kind') != 'CXXDefaultArgExpr'][0])
+    fields = closure_fields(lw, lam)
+    if not any(ct == 'ucont' for nm, ct, mode in fields):
+        raise Unsupported('then() wrapper lambda does not capture the continuation')
     dst = target or lw.newtmp()
     if not target:
         lw.pre.append('qfunction %s;' % dst)
-    lw.pre.append('qfunction_from_closure(&%s, %s, %s);' % (dst, INSTS[lw.inst][1], lw.addr_of(src)))
+    lw.pre.append('%s.kind = %s;' % (dst, INSTS[lw.inst][1]))
+    for (nm, ct, mode), init in zip(fields, lam['inner'][1:-1]):
+        tgt = '%s.c.%s' % (dst, nm)
+        i0 = lw.skip(init)
+        if mode == 'ref':
+            lw.pre.append('%s = %s;' % (tgt, lw.addr(i0)))
+        elif ct in lw.p.class_types and i0.get('kind') in ('CXXConstructExpr', 'CXXTemporaryObjectExpr'):
+            lw.construct(i0, tgt)
+        else:
+            lw.pre.append('%s = %s;' % (tgt, lw.expr(i0)))
+        lw.fire('capture-init:' + mode)
     return dst
 
 
